@@ -48,6 +48,7 @@ PROPERTIES = {
             'EventResult(...) constructor = pydantic model init (fields set from keywords, defaults otherwise)',
             'include filters are pure user predicates (uninterpreted, total, a function of the result object); a lambda handed to an inner accessor means its body, evaluated on the heap at the return of that call',
             'the accessor wrappers are stated over the ghost `last_view` = the dict returned by their inner event_results_filtered call (set at the call site)'],
+        'level': 'other',
         'not_decided': ['event_results_flat_dict: the KEY ORDER of the merged dict is not stated (membership = union of the included dict values, last writer wins, ValueError on a repeated key '
                         'iff raise_if_conflicts are decided); returned dict / list values are objects with the heap fields dict_items / list_items, dict.update is axiomatised (A10)',
                         'conformance of pydantic itself (A9) - a bounded table-driven stand-in is not included'],
